@@ -1542,6 +1542,9 @@ impl ControlEngine {
         if hammer["loads_between_stores"].as_u64().unwrap_or(0) > 0 {
             self.bump("hammer_overlapped");
         }
+        let mut hammer = hammer;
+        hammer["own_field_lost"] = json!(hammer_owned(ev.get("hammer").and_then(Value::as_u64).unwrap_or(20_000) * 5).min(i32::MAX as u64));
+        self.bump("owned_field_hammers");
         let fields: Vec<Value> = (0..6)
             .map(|f| {
                 let per: Vec<Value> = logs
@@ -1629,6 +1632,68 @@ fn hammer(iters: u64) -> Value {
         "unclamped": unclamped.min(i32::MAX as u64), "never_stored": never.min(i32::MAX as u64),
         "echo_wrong": wrong.min(i32::MAX as u64), "first_bad": first_bad.min(i32::MAX as u64),
     })
+}
+
+/// Unlogged pressure phase with OWNED fields: three threads, each the only writer of one setting (mode, quality,
+/// stall guard), store alternating values through the real setters / entry points and read their own field back
+/// from the next configuration snapshot and status.  Nobody else ever writes that field, so "a successful set_* is
+/// visible in the next status and configuration snapshot" means the read-back equals the thread's own last store --
+/// whatever the other threads do to the OTHER settings at the same time.  Only the tally is recorded.
+fn hammer_owned(iters: u64) -> u64 {
+    let cfg = DynamicConfig::new();
+    let stats = SharedStats::new();
+    let cw = CriticalWindow::new();
+    let barrier = Arc::new(Barrier::new(3));
+    let mut hs = Vec::new();
+    for t in 0..3u64 {
+        let (cfg, stats, cw, barrier) = (cfg.clone(), stats.clone(), cw.clone(), barrier.clone());
+        hs.push(std::thread::spawn(move || -> u64 {
+            barrier.wait();
+            let mut lost = 0u64;
+            for n in 0..iters {
+                let b = (n / (t + 1)) % 2 == 0;
+                // every 64th store goes through the request path, the rest through the setter it ends in
+                if n % 64 == 0 {
+                    let line = match t {
+                        0 => format!("{{\"jsonrpc\":\"2.0\",\"id\":1,\"method\":\"set_mode\",\"params\":{{\"mode\":\"{}\"}}}}", if b { "enhanced" } else { "classic" }),
+                        1 => format!("{{\"jsonrpc\":\"2.0\",\"id\":1,\"method\":\"set_quality\",\"params\":{{\"enabled\":{b}}}}}"),
+                        _ => format!("{{\"jsonrpc\":\"2.0\",\"id\":1,\"method\":\"set_stall_deselect\",\"params\":{{\"enabled\":{b}}}}}"),
+                    };
+                    let _ = dispatch(&cfg, Some(&stats), Some(&cw), &line);
+                } else {
+                    match t {
+                        0 => cfg.set_mode(if b { SchedulingMode::Enhanced } else { SchedulingMode::Classic }),
+                        1 => cfg.set_quality_enabled(b),
+                        _ => cfg.set_stall_deselect(b),
+                    }
+                }
+                let s = cfg.snapshot();
+                let got = match t {
+                    0 => !s.mode.is_classic(),
+                    1 => s.quality_enabled,
+                    _ => s.stall_deselect,
+                };
+                if got != b {
+                    lost += 1;
+                }
+                if n % 256 == 0 {
+                    if let Some(r) = dispatch(&cfg, Some(&stats), Some(&cw), "{\"jsonrpc\":\"2.0\",\"id\":1,\"method\":\"get_status\"}") {
+                        let v: Value = serde_json::from_str(&r.to_json()).unwrap_or(Value::Null);
+                        let got = match t {
+                            0 => v["result"]["mode"] == "enhanced",
+                            1 => v["result"]["quality_enabled"] == true,
+                            _ => v["result"]["stall_deselect"] == true,
+                        };
+                        if got != b {
+                            lost += 1;
+                        }
+                    }
+                }
+            }
+            lost
+        }));
+    }
+    hs.into_iter().map(|h| h.join().expect("hammer thread panicked in the code under test")).sum()
 }
 
 fn snap_json_of(s: &srtla_send::ConfigSnapshot) -> Value {
